@@ -187,6 +187,30 @@ pub fn for_net(spec: &GenSpec, net: &Net, tier: Tier, idx: u64, st: &mut Stats) 
             }
         }
     }
+    // connectors of length zero that carry a surcharge (a toll gate, a ferry ramp): the distance does not change over such an
+    // edge, the surcharge is charged all the same. Dijkstra only (an edge shorter than the straight line between its ends is
+    // outside what is claimed for A*)
+    if !is_metric(spec) && m > 0 && (tier == Tier::Thorough || idx % 3 == 0) {
+        for e in [0, m - 1] {
+            for (wd, sur) in [(1.0, 3.5), (0.3, 0.75)] {
+                let mut net0 = net.clone();
+                net0.edges[e].2 = 0.0;
+                let mut w = World::distance(net0);
+                w.w_dist = wd;
+                w.surcharge = vec![(e, sur)];
+                for reverse in [false, true] {
+                    check_case(&w, &Algo::Dijkstra, &Orient::Vertex { o: 0, d: Some(n - 1) }, reverse, st);
+                }
+                for o in 0..m {
+                    for d in 0..m {
+                        if o != d && (o * 5 + d * 3 + idx as usize) % 4 == 0 {
+                            check_case(&w, &Algo::Dijkstra, &Orient::Edge { o, d: Some(d) }, false, st);
+                        }
+                    }
+                }
+            }
+        }
+    }
 }
 
 /// app layer: weights / vehicle_rates / cost_aggregation given in the query must replace the configured ones
